@@ -1,6 +1,13 @@
 //! History monitors over `MonMarket`: C04–C14.
+mod liq;
+mod perp;
+
 use vcommon::Args;
 
-pub fn run(_args: &Args) -> Option<i32> {
-    None
+pub fn run(args: &Args) -> Option<i32> {
+    match args.id.as_str() {
+        "C04" | "C05" | "C06" | "C14" => liq::run(args),
+        "C07" | "C08" | "C09" | "C10" | "C11" | "C12" | "C13" => perp::run(args),
+        _ => None,
+    }
 }
